@@ -6,6 +6,7 @@
 -/
 import ConnectModel.HandlerSide
 import ConnectProofs.Lemmas.Envelope
+import ConnectProofs.C01
 import ConnectProofs.C04
 import ConnectProofs.C08
 import ConnectProofs.C09
@@ -225,4 +226,81 @@ example : (handlerRecvStream .grpc ⟨fun _ => true, fun _ => true⟩
     { codec := { marshal := id, unmarshal := some }, pool := none, max := 0 }
     { flat := [0,0,0,0,1,7, 128,0,0,0,0], tail := .eof }) = ([[7]], .fail codeInternal) := by decide
 
+/-! ### the request direction, positively: what a conforming client wrote is what user code gets -/
+
+theorem be32_length (n : Nat) : (be32 n).length = 4 := by simp [be32]
+
+theorem envMarshal_length_ge {Val : Type} (w : WriterCfg Val) (v : Val) : 5 ≤ (envMarshal w v).length := by
+  unfold envMarshal envWrite
+  split
+  · simp [envPrefix, be32_length]
+  · split <;> simp [envPrefix, be32_length]
+
+theorem flatten_length_ge {Val : Type} (w : WriterCfg Val) (msgs : List Val) :
+    5 * msgs.length ≤ ((msgs.map (envMarshal w)).flatten).length := by
+  induction msgs with
+  | nil => simp
+  | cons v vs ih =>
+    have := envMarshal_length_ge w v
+    simp only [List.map_cons, List.flatten_cons, List.length_append, List.length_cons]
+    omega
+
+/-- at the end of the body every further `Receive` reports the clean end, whatever fuel is left -/
+theorem recvAll_end {Val : Type} (rcfg : ReaderCfg Val) (fuel : Nat) :
+    (recvAll rcfg (fuel + 1)).run takeExact { flat := [], tail := .eof } =
+      (([.fail { code := codeUnknown, wrapsEOF := true }], 0), { flat := [], tail := .eof }) := by
+  rw [recvAll, Prog.run_bind]
+  unfold envUnmarshal
+  rw [Prog.run_bind, envRead_eof]
+  simp [Prog.run, unmarshalFrame]
+
+theorem handlerYields_msgs (p : Proto) (sp : SpecialParsers) :
+    ∀ (ys : List (Yield Bytes)) (msgs : List Bytes) (rest : List (Yield Bytes)),
+      ys.map (C01.yieldValue []) = msgs.map some →
+      handlerYields p sp (ys ++ rest) = (msgs ++ (handlerYields p sp rest).1, (handlerYields p sp rest).2)
+  | [], msgs, rest, h => by
+    cases msgs with
+    | nil => simp
+    | cons m ms => simp at h
+  | y :: ys, msgs, rest, h => by
+    cases msgs with
+    | nil => simp at h
+    | cons m ms =>
+      simp only [List.map_cons, List.cons.injEq] at h
+      obtain ⟨hy, hrest⟩ := h
+      cases y with
+      | msg v =>
+        have hv : v.getD [] = m := by
+          cases v with
+          | none => simpa [C01.yieldValue] using hy
+          | some x => simpa [C01.yieldValue] using hy
+        simp only [List.cons_append, handlerYields, handlerYields_msgs p sp ys ms rest hrest, hv]
+      | endSpecial fl d => simp [C01.yieldValue] at hy
+      | fail e => simp [C01.yieldValue] at hy
+
+/-- **handler_receives_what_client_sent**: a streaming handler (any protocol) that calls `Receive`
+    until it fails, reading a request body that a conforming client wrote — any messages, any
+    agreed compression and threshold, the empty encoding included — hands user code exactly
+    those messages, in order, and then the clean end of the request stream. -/
+theorem handler_receives_what_client_sent (p : Proto) (sp : SpecialParsers)
+    (w : WriterCfg Bytes) (rcfg : ReaderCfg Bytes)
+    (hcodec : rcfg.codec = w.codec) (hpool : rcfg.pool = w.pool)
+    (hc : C01.CodecLaws w.codec []) (hz : ∀ c, w.pool = some c → C01.CompLaws c)
+    (msgs : List Bytes) (hfit : ∀ v ∈ msgs, C01.Fits w rcfg.max v) :
+    handlerRecvStream p sp rcfg { flat := (msgs.map (envMarshal w)).flatten, tail := .eof } = (msgs, .eof) := by
+  unfold handlerRecvStream
+  simp only
+  have hlen := flatten_length_ge w msgs
+  -- split the handler's fuel into one unit per message plus a positive remainder
+  obtain ⟨k, hk⟩ : ∃ k, ((msgs.map (envMarshal w)).flatten).length / 5 + 2 = msgs.length + (k + 1) := by
+    refine ⟨((msgs.map (envMarshal w)).flatten).length / 5 + 1 - msgs.length, ?_⟩
+    have : msgs.length ≤ ((msgs.map (envMarshal w)).flatten).length / 5 := by omega
+    omega
+  rw [hk]
+  obtain ⟨ys, peak, hrun, _, hvals⟩ := C01.recvAll_prefix w rcfg [] hcodec hpool hc hz (k + 1) [] .eof msgs hfit
+  rw [List.append_nil] at hrun
+  rw [hrun, recvAll_end]
+  simp only
+  rw [handlerYields_msgs p sp ys msgs _ hvals]
+  simp [handlerYields]
 end ConnectModel.C07
